@@ -35,7 +35,36 @@ type Query struct {
 	Prefill bool   `json:"prefill,omitempty"`
 	Limit   uint   `json:"limit,omitempty"` // 0 = leave default (100)
 	Order   Order  `json:"order,omitempty"`
+	// CancelAfter > 0: the request's context reports cancellation from its
+	// N-th Err() call on (a client cancelling while the request is running)
+	CancelAfter int `json:"cancel_after,omitempty"`
 }
+
+// cancelCtx is a context whose cancellation arrives at a point the scenario
+// names: after a number of Err() calls by the code under test.
+type cancelCtx struct {
+	context.Context
+	left  int
+	done  chan struct{}
+	fired func()
+}
+
+func (c *cancelCtx) Err() error {
+	if c.left > 0 {
+		c.left--
+		if c.left == 0 {
+			close(c.done)
+		}
+		return nil
+	}
+	if c.fired != nil {
+		c.fired()
+		c.fired = nil
+	}
+	return context.Canceled
+}
+
+func (c *cancelCtx) Done() <-chan struct{} { return c.done }
 
 // QueryKinds lists every entry point the harness can drive.
 var QueryKinds = []string{
@@ -175,6 +204,9 @@ func (se *Session) ExecInTask(q Query) (res *Result) {
 	}
 	p := s.Paths[q.Path]
 	ctx := context.Background()
+	if q.CancelAfter > 0 {
+		ctx = &cancelCtx{Context: ctx, left: q.CancelAfter, done: make(chan struct{}), fired: func() { s.Stats.fire("request_cancelled") }}
+	}
 	d := se.D
 
 	var pos hcl.Pos
